@@ -386,8 +386,7 @@ package shimagent
 //@   ensures typeof(key) != *agent.Key ==> (fresh(result) && akBlob(result) == blobid(key))
 //@   ensures typeof(key) == *agent.Key ==> result == key.(*agent.Key)
 
-//@ # The 'stay listed' clauses are loop invariants (they hold for what was collected when the loops end); they are not restated after the
-//@ # final sort.Slice: carrying them through the permutation made the proof unstable (see /verif/DESIGN.md).
+//@ # The 'stay listed' clauses are loop invariants and, through the permutation contract of the final sort.Slice, postconditions.
 //@ func (*Server).List(s)
 //@   requires s != nil && inv(s) && unheld(s) && inv2(s)
 //@   modifies mstate(addrof(s.mu)), mapof(s.certs), mapof(s.upstreamSSHCACertCache)
@@ -466,6 +465,11 @@ package shimagent
 //@   ensures [upstream-failure-surfaces] (!old(s.locked) && ret(filter, f0, 2) == nil && ret(Agent.Signers, g0, 1) != nil) ==> (result0 == nil && result1 == ret(Agent.Signers, g0, 1))
 //@   ensures [no-hidden-upstream-signer] (!old(s.locked) && result1 == nil) ==> forall(i, 0 <= i && i < len(result0), result0[i] != nil &&
 //@     (typeof(result0[i]) == signer || (s.noUpstreamSSHCACert ==> !hiddenKey(signerKey(result0[i])))))
+//@   ensures [visible-upstream-signers-stay-listed] (!old(s.locked) && ret(filter, f0, 2) == nil && calls(Agent.Signers) == g0 + 1 && ret(Agent.Signers, g0, 1) == nil) ==>
+//@     forall(j, 0 <= j && j < len(ret(Agent.Signers, g0, 0)),
+//@       (!s.noUpstreamSSHCACert || !keyutil.castable(signerKey(ret(Agent.Signers, g0, 0)[j])) ||
+//@        (!(sha(blobid(signerKey(ret(Agent.Signers, g0, 0)[j]))) in dom(s.upstreamSSHCACertCache)) && !hiddenKey(signerKey(ret(Agent.Signers, g0, 0)[j])))) ==>
+//@       exists(i, 0 <= i && i < len(result0), result0[i] == ret(Agent.Signers, g0, 0)[j]))
 //@   loop 1:
 //@     invariant wheld(s) && inv(s) && !old(s.locked) && cacheOff(s)
 //@     invariant calls(filter) == f0 + 1 && arg(filter, f0, 0) == s && ret(filter, f0, 2) == nil && calls(Agent.Signers) == g0
